@@ -348,4 +348,475 @@ theorem src_read_message (cs : Charset) (bs : List Nat) (p : Int) (status : Nat)
       · exact spec_get_big status (by omega)
     simp [hdef', hget, mapErr, bind, Except.bind, throw, throwThe, MonadExceptOf.throw]
 
+/-! ### what the read functions leave unread is shorter -/
+
+theorem readVlqAcc_len : ∀ (bs : List Nat) (acc v : Nat) (r : List Nat),
+    readVlqAcc acc bs = .ok (v, r) → r.length < bs.length
+  | [], acc, v, r, h => by simp [readVlqAcc] at h
+  | b :: rest, acc, v, r, h => by
+    simp only [readVlqAcc] at h
+    by_cases hb : b < 128
+    · simp only [hb, if_true, Except.ok.injEq, Prod.mk.injEq] at h
+      rw [← h.2]; simp
+    · simp only [hb, if_false] at h
+      have := readVlqAcc_len rest _ v r h
+      simp only [List.length_cons]; omega
+
+theorem readVlq_len (bs : List Nat) (v : Nat) (r : List Nat) (h : readVlq bs = .ok (v, r)) : r.length < bs.length :=
+  readVlqAcc_len bs 0 v r h
+
+theorem readBytes_len (n : Nat) (bs d r : List Nat) (h : readBytes n bs = .ok (d, r)) : r.length ≤ bs.length := by
+  unfold readBytes at h
+  split at h
+  · simp at h
+  · split at h
+    · simp at h
+    · simp only [Except.ok.injEq, Prod.mk.injEq] at h
+      rw [← h.2]; simp
+
+theorem readSysex_len (clip : Bool) (bs : List Nat) (e : FEv) (r : List Nat)
+    (h : readSysex clip bs = .ok (e, r)) : r.length < bs.length := by
+  unfold readSysex at h
+  simp only [bind, Except.bind] at h
+  cases hv : readVlq bs with
+  | error err => simp [hv] at h
+  | ok pr =>
+    obtain ⟨len, r1⟩ := pr
+    simp only [hv] at h
+    cases hb : readBytes len r1 with
+    | error err => simp [hb] at h
+    | ok pr2 =>
+      obtain ⟨data, r2⟩ := pr2
+      simp only [hb] at h
+      have h1 := readVlq_len bs len r1 hv
+      have h2 := readBytes_len len r1 data r2 hb
+      have key : ∀ (c : Prop) [Decidable c] (x : FEv),
+          (if c then (pure (x, r2) : Except Err (FEv × List Nat)) else throw .ValueError) = .ok (e, r) → r = r2 := by
+        intro c _ x hx
+        by_cases hc : c
+        · simp only [hc, if_true, pure, Except.pure, Except.ok.injEq, Prod.mk.injEq] at hx
+          exact hx.2.symm
+        · simp [hc, throw, throwThe, MonadExceptOf.throw] at hx
+      have := key _ _ h
+      rw [this]; omega
+
+theorem readMeta_len (cs : Charset) (bs : List Nat) (e : FEv) (r : List Nat)
+    (h : readMeta cs bs = .ok (e, r)) : r.length < bs.length := by
+  unfold readMeta at h
+  cases bs with
+  | nil => simp at h
+  | cons ty r0 =>
+    simp only [bind, Except.bind] at h
+    cases hv : readVlq r0 with
+    | error err => simp [hv] at h
+    | ok pr =>
+      obtain ⟨len, r1⟩ := pr
+      simp only [hv] at h
+      cases hb : readBytes len r1 with
+      | error err => simp [hb] at h
+      | ok pr2 =>
+        obtain ⟨data, r2⟩ := pr2
+        simp only [hb] at h
+        have h1 := readVlq_len r0 len r1 hv
+        have h2 := readBytes_len len r1 data r2 hb
+        cases hm : buildMeta cs ty data with
+        | error err => simp [hm] at h
+        | ok me =>
+          simp only [hm] at h
+          cases me <;> simp only [pure, Except.pure, Except.ok.injEq, Prod.mk.injEq] at h <;>
+            (rw [← h.2]; simp only [List.length_cons]; omega)
+
+theorem readChannelish_len (clip : Bool) (status : Nat) (peek bs : List Nat) (e : FEv) (r : List Nat)
+    (h : readChannelish clip status peek bs = .ok (e, r)) : r.length ≤ bs.length := by
+  rw [readChannelish_eq] at h
+  split at h
+  · simp at h
+  · simp only [] at h
+    split at h
+    · simp at h
+    · split at h
+      · simp at h
+      · split at h
+        · simp only [Except.ok.injEq, Prod.mk.injEq] at h
+          rw [← h.2]; simp
+        · simp at h
+
+/-! ### one round of `read_track`'s loop = the model's `readEvent` -/
+
+theorem tell_mkFile (bs : List Nat) (p : Int) : tell (mkFile bs p) = p := rfl
+
+theorem readByte_mkFile (b : Nat) (r : List Nat) (p : Int) :
+    readByte (mkFile (b :: r) p) = .ok ((b : Int), mkFile r (p + 1)) := by
+  simp [readByte, mkFile, natsToInts]
+
+theorem readByte_mkFile_nil (p : Int) : readByte (mkFile [] p) = .error .EOFError := by
+  simp [readByte, mkFile, natsToInts]
+
+/-- what the three `read_*` calls of a round come to, given the event reader's result -/
+theorem round_finish (track : List LEvent) (l : Option Int) (q q' : Int) (rest : List Nat) (e : LEvent) (hq : q = q') :
+    (Except.ok (Sum.inr (mkFile rest q, track ++ [e], l)) : Except Err (Sum (PyFile × List LEvent × Option Int) (PyFile × List LEvent × Option Int)))
+      = .ok (Sum.inr (mkFile rest q', track ++ [e], l)) := by rw [hq]
+
+set_option maxRecDepth 8000 in
+theorem src_track_body (cs : Charset) (clip : Bool) (name : List Int) (size : Nat) (start : Int)
+    (bs : List Nat) (p : Int) (consumed : Nat) (last : Option Nat) (track : List LEvent)
+    (hp : p - start = consumed) :
+    Src.read_track.loop1.body (modelExt cs) clip name (size : Int) start (mkFile bs p) track (optInt last) =
+      if consumed = size then .ok (Sum.inl (mkFile bs p, track, optInt last))
+      else match readEvent cs clip last bs with
+        | .ok (e, rest, last') =>
+          .ok (Sum.inr (mkFile rest (p + bs.length - rest.length), track ++ [e], optInt last'))
+        | .error err => .error err := by
+  unfold Src.read_track.loop1.body
+  by_cases hdone : consumed = size
+  · have : (tell (mkFile bs p) - start == (size : Int)) = true := by
+      rw [tell_mkFile, hp, hdone]; simp
+    simp [this, hdone, pure, Except.pure, bind, Except.bind]
+  · have : (tell (mkFile bs p) - start == (size : Int)) = false := by
+      rw [tell_mkFile, hp]
+      have : ¬ ((consumed : Int) = (size : Int)) := by omega
+      simpa using this
+    simp only [this, hdone, Bool.false_eq_true, if_false, bind, Except.bind, pure, Except.pure,
+      src_read_variable_int]
+    unfold readEvent
+    simp only [bind, Except.bind]
+    cases hv : readVlq bs with
+    | error err => rfl
+    | ok pr =>
+      obtain ⟨delta, r1⟩ := pr
+      simp only []
+      cases r1 with
+      | nil => simp [readByte_mkFile_nil, throw, throwThe, MonadExceptOf.throw]
+      | cons sb r2 =>
+        have hl1 := readVlq_len bs delta (sb :: r2) hv
+        simp only [List.length_cons] at hl1
+        have hq : p + (bs.length : Int) - ((sb :: r2).length : Int) + 1 = p + (bs.length : Int) - (r2.length : Int) := by
+          simp only [List.length_cons]; push_cast; omega
+        simp only [readByte_mkFile, hq]
+        by_cases hsb : sb < 0x80
+        · have hsb' : decide ((sb : Int) < 128) = true := by simp; omega
+          simp only [hsb, hsb', if_true]
+          cases last with
+          | none => simp [optInt, throw, throwThe, MonadExceptOf.throw]
+          | some st =>
+            have hne : (optInt (some st) == none) = false := by simp [optInt]
+            have hget : optGet (optInt (some st)) = .ok (st : Int) := by simp [optInt, optGet]
+            simp only [hne, Bool.false_eq_true, if_false, hget]
+            by_cases h255 : st = 0xff
+            · subst h255
+              have e1 : (((255 : Nat) : Int) == 255) = true := by decide
+              simp only [e1, if_true, src_read_meta_message, if_true]
+              cases hm : readMeta cs r2 with
+              | error err => simp
+              | ok pr2 =>
+                obtain ⟨ev, rest⟩ := pr2
+                have := readMeta_len cs r2 ev rest hm
+                simp only [pure, Except.pure]
+                apply round_finish; omega
+            · have e1 : ((st : Int) == 255) = false := by
+                have : ¬ ((st : Int) = 255) := by omega
+                simpa using this
+              simp only [h255, e1, Bool.false_eq_true, if_false]
+              by_cases hsx : st = 0xf0 ∨ st = 0xf7
+              · have e2 : List.elem (st : Int) [240, 247] = true := by
+                  rcases hsx with h | h <;> subst h <;> decide
+                simp only [hsx, e2, if_true, src_read_sysex]
+                cases hm : readSysex clip r2 with
+                | error err => simp
+                | ok pr2 =>
+                  obtain ⟨ev, rest⟩ := pr2
+                  have := readSysex_len clip r2 ev rest hm
+                  simp only [pure, Except.pure]
+                  apply round_finish; omega
+              · have e2 : List.elem (st : Int) [240, 247] = false := by
+                  have a : ((st : Int) == 240) = false := by
+                    have : ¬ ((st : Int) = 240) := by omega
+                    simpa using this
+                  have b : ((st : Int) == 247) = false := by
+                    have : ¬ ((st : Int) = 247) := by omega
+                    simpa using this
+                  simp [List.elem, a, b]
+                have hpk : ([(sb : Int)] : List Int) = natsToInts [sb] := by simp [natsToInts]
+                simp only [hsx, e2, Bool.false_eq_true, if_false, hpk, src_read_message]
+                cases hm : readChannelish clip st [sb] r2 with
+                | error err => simp
+                | ok pr2 =>
+                  obtain ⟨ev, rest⟩ := pr2
+                  have := readChannelish_len clip st [sb] r2 ev rest hm
+                  simp only [pure, Except.pure]
+                  apply round_finish; omega
+        · have hsb' : decide ((sb : Int) < 128) = false := by simp; omega
+          simp only [hsb, hsb', Bool.false_eq_true, if_false]
+          by_cases h255 : sb = 0xff
+          · subst h255
+            have e0 : (((255 : Nat) : Int) != 255) = false := by decide
+            have e1 : (((255 : Nat) : Int) == 255) = true := by decide
+            simp only [e0, e1, Bool.false_eq_true, if_false, if_true, src_read_meta_message]
+            cases hm : readMeta cs r2 with
+            | error err => simp
+            | ok pr2 =>
+              obtain ⟨ev, rest⟩ := pr2
+              have := readMeta_len cs r2 ev rest hm
+              simp only [pure, Except.pure]
+              apply round_finish; omega
+          · have e0 : ((sb : Int) != 255) = true := by
+              have : ¬ ((sb : Int) = 255) := by omega
+              simpa using this
+            have e1 : ((sb : Int) == 255) = false := by
+              have : ¬ ((sb : Int) = 255) := by omega
+              simpa using this
+            simp only [h255, e0, e1, if_true, Bool.false_eq_true, if_false]
+            by_cases hsx : sb = 0xf0 ∨ sb = 0xf7
+            · have e2 : List.elem (sb : Int) [240, 247] = true := by
+                rcases hsx with h | h <;> subst h <;> decide
+              simp only [hsx, e2, if_true, src_read_sysex]
+              cases hm : readSysex clip r2 with
+              | error err => simp
+              | ok pr2 =>
+                obtain ⟨ev, rest⟩ := pr2
+                have := readSysex_len clip r2 ev rest hm
+                simp only [pure, Except.pure, optInt, Option.map_some]
+                apply round_finish; omega
+            · have e2 : List.elem (sb : Int) [240, 247] = false := by
+                have a : ((sb : Int) == 240) = false := by
+                  have : ¬ ((sb : Int) = 240) := by omega
+                  simpa using this
+                have b : ((sb : Int) == 247) = false := by
+                  have : ¬ ((sb : Int) = 247) := by omega
+                  simpa using this
+                simp [List.elem, a, b]
+              simp only [hsx, e2, Bool.false_eq_true, if_false]
+              have hpk : ([] : List Int) = natsToInts [] := by simp [natsToInts]
+              rw [hpk, src_read_message]
+              cases hm : readChannelish clip sb [] r2 with
+              | error err => simp
+              | ok pr2 =>
+                obtain ⟨ev, rest⟩ := pr2
+                have := readChannelish_len clip sb [] r2 ev rest hm
+                simp only [pure, Except.pure, optInt, Option.map_some]
+                apply round_finish; omega
+
+/-! ### the loop of `read_track` = the model's `readEvents` -/
+
+theorem readEvent_len (cs : Charset) (clip : Bool) (last : Option Nat) (bs : List Nat) (e : LEvent) (r : List Nat)
+    (l : Option Nat) (h : readEvent cs clip last bs = .ok (e, r, l)) : r.length < bs.length := by
+  unfold readEvent at h
+  simp only [bind, Except.bind] at h
+  cases hv : readVlq bs with
+  | error err => simp [hv] at h
+  | ok pr =>
+    obtain ⟨delta, r1⟩ := pr
+    simp only [hv] at h
+    have h1 := readVlq_len bs delta r1 hv
+    cases r1 with
+    | nil => simp [throw, throwThe, MonadExceptOf.throw] at h
+    | cons sb r2 =>
+      simp only [List.length_cons] at h1
+      simp only [] at h
+      -- every branch reads from r2 and returns what its reader leaves
+      have hmeta : ∀ ev rr, readMeta cs r2 = .ok (ev, rr) → rr.length ≤ r2.length :=
+        fun ev rr hh => Nat.le_of_lt (readMeta_len cs r2 ev rr hh)
+      have hsys : ∀ ev rr, readSysex clip r2 = .ok (ev, rr) → rr.length ≤ r2.length :=
+        fun ev rr hh => Nat.le_of_lt (readSysex_len clip r2 ev rr hh)
+      have hch : ∀ st pk ev rr, readChannelish clip st pk r2 = .ok (ev, rr) → rr.length ≤ r2.length :=
+        fun st pk ev rr hh => readChannelish_len clip st pk r2 ev rr hh
+      have : r.length ≤ r2.length := by
+        split at h
+        · cases last with
+          | none => simp [throw, throwThe, MonadExceptOf.throw] at h
+          | some st =>
+            simp only [] at h
+            split at h
+            · (cases hx : readMeta cs r2 with
+              | error err => simp [hx] at h
+              | ok v =>
+                simp only [hx, pure, Except.pure, Except.ok.injEq, Prod.mk.injEq] at h
+                have := hmeta v.1 v.2 (by rw [hx])
+                rw [← h.2.1]; exact this)
+            · split at h
+              · (cases hx : readSysex clip r2 with
+              | error err => simp [hx] at h
+              | ok v =>
+                simp only [hx, pure, Except.pure, Except.ok.injEq, Prod.mk.injEq] at h
+                have := hsys v.1 v.2 (by rw [hx])
+                rw [← h.2.1]; exact this)
+              · (cases hx : readChannelish clip st [sb] r2 with
+              | error err => simp [hx] at h
+              | ok v =>
+                simp only [hx, pure, Except.pure, Except.ok.injEq, Prod.mk.injEq] at h
+                have := hch st [sb] v.1 v.2 (by rw [hx])
+                rw [← h.2.1]; exact this)
+        · split at h
+          · (cases hx : readMeta cs r2 with
+              | error err => simp [hx] at h
+              | ok v =>
+                simp only [hx, pure, Except.pure, Except.ok.injEq, Prod.mk.injEq] at h
+                have := hmeta v.1 v.2 (by rw [hx])
+                rw [← h.2.1]; exact this)
+          · split at h
+            · (cases hx : readSysex clip r2 with
+              | error err => simp [hx] at h
+              | ok v =>
+                simp only [hx, pure, Except.pure, Except.ok.injEq, Prod.mk.injEq] at h
+                have := hsys v.1 v.2 (by rw [hx])
+                rw [← h.2.1]; exact this)
+            · (cases hx : readChannelish clip sb [] r2 with
+              | error err => simp [hx] at h
+              | ok v =>
+                simp only [hx, pure, Except.pure, Except.ok.injEq, Prod.mk.injEq] at h
+                have := hch sb [] v.1 v.2 (by rw [hx])
+                rw [← h.2.1]; exact this)
+      omega
+
+theorem readEvents_len (cs : Charset) (clip : Bool) (size : Nat) :
+    ∀ (fuel consumed : Nat) (last : Option Nat) (bs : List Nat) (es : List LEvent) (rest : List Nat),
+      readEvents cs clip size fuel consumed last bs = .ok (es, rest) → rest.length ≤ bs.length
+  | 0, _, _, _, _, _, h => by simp [readEvents] at h
+  | f + 1, consumed, last, bs, es, rest, h => by
+    rw [readEvents] at h
+    by_cases hd : consumed = size
+    · simp only [hd, if_true, Except.ok.injEq, Prod.mk.injEq] at h
+      rw [← h.2]; exact Nat.le_refl _
+    · simp only [hd, if_false, bind, Except.bind] at h
+      cases he : readEvent cs clip last bs with
+      | error err => simp [he] at h
+      | ok pr =>
+        obtain ⟨e, r1, l1⟩ := pr
+        simp only [he] at h
+        have h1 := readEvent_len cs clip last bs e r1 l1 he
+        cases hr : readEvents cs clip size f (consumed + (bs.length - r1.length)) l1 r1 with
+        | error err => simp [hr] at h
+        | ok pr2 =>
+          obtain ⟨es2, r2⟩ := pr2
+          have h2 := readEvents_len cs clip size f _ l1 r1 es2 r2 hr
+          simp only [hr, pure, Except.pure, Except.ok.injEq, Prod.mk.injEq] at h
+          rw [← h.2]; omega
+
+theorem src_track_loop (cs : Charset) (clip : Bool) (name : List Int) (size : Nat) (start : Int) :
+    ∀ (fuel : Nat) (bs : List Nat) (p : Int) (consumed : Nat) (last : Option Nat) (track : List LEvent),
+      bs.length < fuel → p - start = consumed →
+      match readEvents cs clip size fuel consumed last bs with
+      | .ok (es, rest) => ∃ l', Src.read_track.loop1 (modelExt cs) clip name (size : Int) start fuel (mkFile bs p) track
+          (optInt last) = .ok (mkFile rest (p + bs.length - rest.length), track ++ es, l')
+      | .error err => Src.read_track.loop1 (modelExt cs) clip name (size : Int) start fuel (mkFile bs p) track
+          (optInt last) = .error err
+  | 0, bs, p, consumed, last, track, hf, _ => by omega
+  | f + 1, bs, p, consumed, last, track, hf, hp => by
+    rw [Src.read_track.loop1, readEvents]
+    simp only [if_true, src_track_body cs clip name size start bs p consumed last track hp]
+    by_cases hdone : consumed = size
+    · simp only [hdone, if_true]
+      exact ⟨optInt last, by simp [pure, Except.pure]⟩
+    · simp only [hdone, if_false, bind, Except.bind]
+      cases he : readEvent cs clip last bs with
+      | error err => simp
+      | ok pr =>
+        obtain ⟨e, rest, last'⟩ := pr
+        have hlen := readEvent_len cs clip last bs e rest last' he
+        have ih := src_track_loop cs clip name size start f rest (p + bs.length - rest.length)
+          (consumed + (bs.length - rest.length)) last' (track ++ [e]) (by omega) (by omega)
+        simp only []
+        cases hr : readEvents cs clip size f (consumed + (bs.length - rest.length)) last' rest with
+        | error err =>
+          simp only [hr] at ih
+          simp only [ih]
+        | ok pr2 =>
+          obtain ⟨es, rest'⟩ := pr2
+          simp only [hr] at ih
+          obtain ⟨l', hl⟩ := ih
+          refine ⟨l', ?_⟩
+          simp only [hl, pure, Except.pure, List.append_assoc, List.singleton_append]
+          have hlen2 : rest'.length ≤ rest.length := readEvents_len cs clip size f _ last' rest es rest' hr
+          congr 3
+          omega
+
+/-! ### `read_chunk_header`, `read_track` -/
+
+set_option maxRecDepth 8000 in
+theorem beVal_be32 (a b c d : Nat) : beVal (natsToInts [a, b, c, d]) = ((be32 [a, b, c, d] : Nat) : Int) := by
+  simp only [natsToInts, List.map_cons, List.map_nil, beVal, be32, List.length_cons, List.length_nil]
+  have e3 : (256 : Int) ^ (0 + 1 + 1 + 1) = 16777216 := by decide
+  have e2 : (256 : Int) ^ (0 + 1 + 1) = 65536 := by decide
+  have e1 : (256 : Int) ^ (0 + 1) = 256 := by decide
+  have e0 : (256 : Int) ^ 0 = 1 := by decide
+  rw [e3, e2, e1, e0]
+  simp only [Int.ofNat_eq_natCast]
+  push_cast
+  omega
+
+theorem src_read_chunk_header (bs : List Nat) (p : Int) :
+    Src.read_chunk_header (mkFile bs p) =
+      if bs.length < 8 then .error .EOFError
+      else .ok ((natsToInts (bs.take 4), ((be32 ((bs.drop 4).take 4) : Nat) : Int)), mkFile (bs.drop 8) (p + 8)) := by
+  unfold Src.read_chunk_header
+  have e8 : (8 : Int).toNat = 8 := rfl
+  have hrl : (mkFile bs p).rest.length = bs.length := by simp [mkFile, natsToInts]
+  by_cases h : bs.length < 8
+  · have hk : min 8 bs.length = bs.length := by omega
+    have hlt : decide ((len (List.take bs.length (mkFile bs p).rest)) < (8 : Int)) = true := by
+      simp [len, hrl]; omega
+    simp only [readUpTo, e8, hrl, hk, h, if_true, bind, Except.bind, pure, Except.pure, hlt, throw, throwThe,
+      MonadExceptOf.throw]
+  · have hk : min 8 bs.length = 8 := by omega
+    have hlt : decide ((len (List.take 8 (mkFile bs p).rest)) < (8 : Int)) = false := by
+      simp [len, hrl]; omega
+    simp only [readUpTo, e8, hrl, hk, h, if_false, bind, Except.bind, pure, Except.pure, hlt, Bool.false_eq_true]
+    -- the eight header bytes
+    match bs, h with
+    | a :: b :: c :: d :: e :: f :: g :: i :: rest, _ =>
+      have hb := beVal_be32 e f g i
+      simp only [natsToInts, List.map_cons, List.map_nil] at hb
+      simp [unpack4sL, mkFile, natsToInts]
+      exact hb
+    | [], h | [_], h | [_, _], h | [_, _, _], h | [_, _, _, _], h | [_, _, _, _, _], h | [_, _, _, _, _, _], h
+    | [_, _, _, _, _, _, _], h => simp at h
+
+/-- `read_track`, as translated from the source (chunk header, `tell()`-based end test, delta time, running
+    status, the three kinds of event), reads from EVERY byte list exactly the events of the model's `readTrack`,
+    leaves the same bytes unread at the position that corresponds to them, and raises where the model raises -/
+theorem src_read_track (cs : Charset) (clip : Bool) (bs : List Nat) (p : Int) :
+    Src.read_track (modelExt cs) (mkFile bs p) clip =
+      match readTrack cs clip bs with
+      | .ok (es, rest) => .ok (es, mkFile rest (p + bs.length - rest.length))
+      | .error e => .error e := by
+  unfold Src.read_track readTrack
+  simp only [bind, Except.bind, pure, Except.pure, src_read_chunk_header]
+  by_cases h8 : bs.length < 8
+  · simp [h8]
+  · simp only [h8, if_false]
+    have hmtrk : natsToInts mtrk = [77, 84, 114, 107] := by decide
+    by_cases hname : bs.take 4 = mtrk
+    · have hne : (natsToInts (bs.take 4) != ([77, 84, 114, 107] : List Int)) = false := by
+        rw [hname, hmtrk]; simp
+      have hne' : (natsToInts mtrk != ([77, 84, 114, 107] : List Int)) = false := by rw [hmtrk]; simp
+      simp only [hne, hne', Bool.false_eq_true, if_false, hname, ne_eq, not_true_eq_false, tell_mkFile]
+      have hl : (mkFile (bs.drop 8) (p + 8)).rest.length = (bs.drop 8).length := by simp [mkFile, natsToInts]
+      have hloop := src_track_loop cs clip (natsToInts mtrk) (be32 ((bs.drop 4).take 4)) (p + 8)
+        ((bs.drop 8).length + 1) (bs.drop 8) (p + 8) 0 none [] (by omega) (by simp)
+      rw [hl]
+      cases hr : readEvents cs clip (be32 ((bs.drop 4).take 4)) ((bs.drop 8).length + 1) 0 none (bs.drop 8) with
+      | error err =>
+        simp only [hr] at hloop
+        simp only [optInt, Option.map_none] at hloop
+        rw [hloop]
+      | ok pr =>
+        obtain ⟨es, rest⟩ := pr
+        simp only [hr] at hloop
+        obtain ⟨l', hl'⟩ := hloop
+        simp only [optInt, Option.map_none, List.nil_append] at hl'
+        rw [hl']
+        have hrl := readEvents_len cs clip _ _ _ _ _ es rest hr
+        have hd : (bs.drop 8).length = bs.length - 8 := by simp
+        have hpos : p + 8 + ((bs.drop 8).length : Int) - (rest.length : Int) = p + (bs.length : Int) - (rest.length : Int) := by
+          rw [hd]; omega
+        simp only [hpos]
+    · have hne : (natsToInts (bs.take 4) != ([77, 84, 114, 107] : List Int)) = true := by
+        rw [← hmtrk]
+        simp only [bne_iff_ne, ne_eq]
+        intro hh
+        apply hname
+        have := congrArg intsToNats hh
+        simpa using this
+      simp [hne, hname, throw, throwThe, MonadExceptOf.throw]
+
 end Mido
